@@ -40,12 +40,20 @@ def add_reflinks(r, tree):
     return uses, defs
 
 
-def check_tree(m, r, tree, fails, with_refs):
+def check_tree(m, r, tree, fails, with_refs, odd_ends=False):
     from mistune.renderers.markdown import MarkdownRenderer
     doc = canon.print_doc(tree)
     if with_refs:
         uses, defs = add_reflinks(r, tree)
         doc = doc + "\n" + uses + "\n\n" + defs + "\n"
+    if odd_ends:
+        # the same document with a character that str.splitlines() takes for a line end (and Markdown does not) at the END of one
+        # or two of its lines: the round trip is stated for the document, whatever tree it has
+        lines = doc.split("\n")
+        cand = [k for k, ln in enumerate(lines) if ln[-1:].isalpha()]
+        for k in r.sample(cand, min(len(cand), r.randint(1, 2))):
+            lines[k] += r.choice(["\u2028", "\x0c", "\x85", "\u2029", "\x0b", "\x1c", "\x1e"])
+        doc = "\n".join(lines)
     p = m.create_markdown(renderer=None)
     fmt = m.create_markdown(renderer=MarkdownRenderer())
     hits = []
@@ -82,7 +90,7 @@ def oracle(ctx, extra):
         # text of plain words; every second tree with inline structure around it (emphasis, strong, code spans, links with
         # titles and with destinations that need the pointy form, images, autolinks, soft and hard breaks)
         tree = canon.gen_blocks(r, 0, plain=(True if i % 2 else "words"))
-        check_tree(m, r, tree, fails, with_refs=(i % 3 == 0))
+        check_tree(m, r, tree, fails, with_refs=(i % 3 == 0), odd_ends=(i % 4 == 1))
         n += 1
         seen.add(json.dumps(tree))
         if len([f for f in fails if not f.get("class")]) >= 5:
